@@ -35,17 +35,30 @@ Engine: E5 (production SFTPServer / SFTPClient over a socketpair).
     last byte / exactly EOF / past EOF, SEEK_END +-k, after reading the file to its end, after a truncate below the position)
     and with a generated file_size ARGUMENT (None = ask the server, the true size, 0, smaller than the position ("stale"),
     larger than the file), followed by reads / seeks on that file.
+    Operations while read-ahead is IN PROGRESS (round 4, focus "busy"): the read file is a generated 1-4 MiB file (32-128 read-ahead
+    requests), so after prefetch() / readv() returns the library's helper thread is still SENDING requests and their replies keep
+    arriving while the application goes on: listdir / listdir_attr / listdir_iter (consumed completely or abandoned after k entries) on a
+    directory of 0-40 entries (several READDIR replies), stat / lstat, a read of another file, a burst of pipelined writes on another
+    file - then the file is read to its end (or in pieces) and closed.  Any synchronous request consumes the replies queued before
+    its own answer; what matters here are the replies that arrive after it (requests the helper thread sent later).  The same
+    session operations are also generated inside the small-file read-ahead programs.
     Oracle: every API call returns or raises. "Blocks forever" is decided by a deadlock proof
     (client parked in recv, server idle in recv, every request byte consumed, every response
     byte delivered, as many responses sent as requests processed, no other thread alive, stable
     for 0.5 s), or by 6 s without return on a settled link (every request byte consumed and answered,
     server idle in recv, no other thread alive, the application thread neither sends nor reads: it spins),
-    or, failing that, by 20 s without return and without traffic on the link; the case is re-run twice
-    and reported only if it blocks all three times. The channel is then closed so that no thread stays behind.
+    or, failing that, by 20 s without return and without traffic on the link; for the verdicts taken by the clock the case is re-run twice
+    and reported only if it blocks all three times (a deadlock proof or the request count below needs no confirmation). The channel is then closed so that no thread stays behind.
+    A call that keeps the link busy without ever returning (a loop that sends requests for ever) is decided by a count, not by the
+    clock: more than CALL_REQUEST_LIMIT requests processed by the server for ONE application call (the largest legitimate call of
+    the alphabet needs a few hundred) is "never returns".  With a helper thread still alive (spinning on its concurrency cap) the
+    "settled link" rule cannot apply; then QUIET_BOUND_S without a byte moving in either direction while the application thread is
+    parked in recv, the server idle in recv and every request answered is the bound (600x the helper's 10 ms polling period).
 
 Known defects are detected at start-up with their minimal reproductions (the committed replays);
 while one is present the generator steers around it (ctx.exclude) so that the search goes on:
-EXCLUDE = {...} below; None = automatic, True/False = forced.
+EXCLUDE = {...} below; None = automatic, True/False = forced.  Round 4 found the fourth one on the unchanged tree: SFTPClient.listdir_iter reads
+its READDIR replies raw and takes replies of other requests (read-ahead READs still arriving) for its own ("iterhang").
 """
 import os
 import select
@@ -74,7 +87,10 @@ RULE = (
     "at EOF, past EOF, after reading to the end, after a truncate below the position - with file_size argument None / exact / 0 / stale-smaller / "
     "larger, then reads and seeks); non-trivial = some non-write request was issued while pipelined writes "
     "were unacknowledged, or a file operation was issued while read-ahead replies were outstanding, or a read followed a prefetch that was "
-    "started at or beyond the end of the file (or of its file_size argument). distinct = SHA-1 of the case"
+    "started at or beyond the end of the file (or of its file_size argument), or a session operation (listdir / listdir_attr / listdir_iter "
+    "complete or abandoned / stat / lstat / read of another file / write burst) was issued while read-ahead replies were outstanding. "
+    "Focus 'busy': read file of 1-4 MiB (32-128 read-ahead requests, helper thread still sending while the application goes on), 1-4 such "
+    "session operations, then the file is read to its end. distinct = SHA-1 of the case"
 )
 
 # None = decide automatically from the minimal reproduction; True / False = force
@@ -82,6 +98,7 @@ EXCLUDE = {
     "checkfile": None,  # check-file ranges past EOF / blocks > 64 KiB (endless read loop, repaired under C32)
     "attrcount": None,  # extended-attribute count far beyond the packet (multi-minute parse loop)
     "clienthang": None,  # write drain after another request consumed the pipelined replies
+    "iterhang": None,  # listdir_iter while read-ahead replies are arriving takes them for its READDIR replies
 }
 
 READ_LIMIT = 8000
@@ -101,6 +118,7 @@ SIG_FSETSTAT = "response-type|fsetstat->5"
 SIG_CHECKFILE = "stops-answering|check-file-endless-read-loop"
 SIG_ATTRCOUNT = "stops-answering|stuck-under:sftp_attr.py:_from_msg"
 SIG_CLIENTHANG = "client-blocks-forever|pipelined-write-reply-consumed-by-other-request"
+SIG_ITERHANG = "client-blocks-forever|read-ahead-replies-outstanding-during:listiter"
 
 _present = {}  # exclusion name -> bool (defect reproduced in this process)
 _client_blocked = [False]  # an unlisted client block was reported in this run: part (B) stops exploring
@@ -724,11 +742,30 @@ PATHS = ["/r0", "/", "/w0", "/w1", "/nope", "/d"]
 RMODES = ["rb", "r+b"]
 R_FILE_OPS = ("rprefetch", "rreadv", "rtruncate", "rchmod", "rutime", "rfstat", "rseek", "ryield")
 QUIET_BOUND_S = 6.0
+CALL_REQUEST_LIMIT = 3000  # requests the server processes for ONE application call (legitimate calls of the alphabet: at most ~600, helper thread included)
+DIRS = ["/", "/d"]
+RFILES = ["/r0", "/r1"]  # /r1: the case's big read file ("big_kb" KiB)
 
 
 class _Abort(BaseException):
     """Raised asynchronously inside an application thread that spins instead of returning (so that it does not stay behind)."""
 
+
+
+def _roomy_link(cchan):
+    """Give the client-to-server direction of the socketpair the capacity an SSH channel has for requests.  A unix socket charges
+    every small packet with its bookkeeping overhead, so the default buffer holds only a few hundred queued REQUESTS (an SSH channel
+    window of 2 MiB holds tens of thousands): with the server busy sending data nobody reads yet, a client that pipelines a few
+    hundred small requests (read-ahead of a big file + listdir_iter's 50 READDIRs) would block in send() - on the harness link, not
+    in paramiko.  The server-to-client direction keeps its default size (replies are big; a full window there is normal SSH life)."""
+    import socket
+
+    for opt in (getattr(socket, "SO_SNDBUFFORCE", 32), socket.SO_SNDBUF):
+        try:
+            cchan._s.setsockopt(socket.SOL_SOCKET, opt, 16 << 20)
+            break
+        except OSError:
+            continue
 
 
 def run_client_once(ctx, case, observe):
@@ -741,8 +778,15 @@ def run_client_once(ctx, case, observe):
     os.makedirs(os.path.join(root, "d"))
     with open(os.path.join(root, "r0"), "wb") as f:
         f.write(b"0123456789abcdef" * 6250)  # 100000 bytes
+    if case.get("big_kb"):
+        with open(os.path.join(root, "r1"), "wb") as f:
+            f.write(b"0123456789abcdef" * (64 * int(case["big_kb"])))
+    for i in range(int(case.get("dentries") or 0)):
+        with open(os.path.join(root, "d", "e%02d" % i), "wb") as f:
+            f.write(b"y" * i)
     env = SftpEnv(root)
     cchan, schan, sth, server = env._sessions[0]
+    _roomy_link(cchan)
     stats = instrument(server)
     baseline = set(threading.enumerate())
     files = W.track_files(env.client)
@@ -750,8 +794,9 @@ def run_client_once(ctx, case, observe):
     wf = {}  # slot -> SFTPFile
     risk = {}  # slot -> a non-write request was issued while writes were unacknowledged
     rf = [None]
+    rf_path = [os.path.join(root, "r0")]  # served file behind rf[0]
     payload = b"w" * 40000
-    info = {"executed": 0, "raised": 0, "skipped": 0, "excluded": 0, "risky": 0, "ra_risky": 0, "ra_reads": 0, "ra_at_end": False, "ra_end_reads": 0, "blocked_at": None, "why": None, "op": None, "on_risky_file": False}
+    info = {"ra_session": [], "executed": 0, "raised": 0, "skipped": 0, "excluded": 0, "risky": 0, "ra_risky": 0, "ra_reads": 0, "ra_at_end": False, "ra_end_reads": 0, "blocked_at": None, "why": None, "op": None, "on_risky_file": False}
 
     def outstanding(slot):
         f = wf.get(slot)
@@ -780,6 +825,16 @@ def run_client_once(ctx, case, observe):
         with f._prefetch_lock:
             n = len(f._prefetch_extents)
         return n > 0 or any(t not in baseline and t is not threading.current_thread() for t in threading.enumerate())
+
+    def note_session(kind):
+        """A session operation (not on the read file) is about to be issued: record whether read-ahead replies are outstanding."""
+        if not readahead_outstanding():
+            return False
+        info["ra_session"].append(kind)
+        observe("B:%s-while-readahead-outstanding" % kind)
+        if any(t not in baseline and t is not threading.current_thread() for t in threading.enumerate()):
+            observe("B:%s-while-readahead-requests-still-being-sent" % kind)
+        return True
 
     def note_other(except_slot=None):
         for s in list(wf):
@@ -812,6 +867,7 @@ def run_client_once(ctx, case, observe):
                 info["excluded"] += 1
                 ctx.exclude("write-drain-after-consumed-replies")
                 return None
+            note_session("write")
             # a write on this file is "another request" for the other file
             for s in list(wf):
                 if s != slot and outstanding(s):
@@ -850,15 +906,42 @@ def run_client_once(ctx, case, observe):
             return lambda: f.stat()
         if k == "stat":
             note_other()
+            note_session(k)
             return lambda: client.stat(PATHS[op[1] % len(PATHS)])
         if k == "lstat":
             note_other()
+            note_session(k)
             return lambda: client.lstat(PATHS[op[1] % len(PATHS)])
-        if k == "listdir":
+        if k in ("listdir", "listdirattr", "listiter"):
             note_other()
-            return lambda: client.listdir("/")
+            d = DIRS[(op[1] if len(op) > 1 else 0) % len(DIRS)]
+            if k == "listiter" and _excluded("iterhang") and readahead_outstanding():
+                info["excluded"] += 1
+                ctx.exclude("listdir_iter-while-readahead-replies-arrive")
+                return None
+            note_session(k)
+            if k == "listdir":
+                return lambda: client.listdir(d)
+            if k == "listdirattr":
+                return lambda: len(client.listdir_attr(d))
+            take = op[2] if len(op) > 2 else None
+
+            def go():
+                it = client.listdir_iter(d)
+                n = 0
+                try:
+                    for _ in it:
+                        n += 1
+                        if take is not None and n >= take:
+                            break  # the application abandons the listing
+                finally:
+                    it.close()
+                return n
+
+            return go
         if k == "readfile":
             note_other()
+            note_session(k)
 
             def go():
                 with client.open("/r0", "rb") as f:
@@ -879,9 +962,16 @@ def run_client_once(ctx, case, observe):
                 return None
             note_other()
 
+            which = (op[5] if len(op) > 5 else 0) % len(RFILES)
+            if which and not case.get("big_kb"):
+                which = 0
+
             def go():
-                f = client.open("/r0", RMODES[op[3] % len(RMODES)] if len(op) > 3 else "rb")
+                f = client.open(RFILES[which], RMODES[op[3] % len(RMODES)] if len(op) > 3 else "rb")
                 rf[0] = f
+                rf_path[0] = root + RFILES[which]
+                if which:
+                    observe("B:read-file:%d-read-ahead-requests" % ((os.path.getsize(rf_path[0]) + 32767) // 32768))
                 if op[1]:
                     f.prefetch(None, op[2])
                     if len(op) > 4 and op[4]:
@@ -897,7 +987,7 @@ def run_client_once(ctx, case, observe):
                 return lambda: let_readahead_go(f, op[1])
             if k == "rseek":
                 off, whence = op[1], op[2]
-                base = 0 if whence == 0 else (f.tell() if whence == 1 else os.path.getsize(os.path.join(root, "r0")))
+                base = 0 if whence == 0 else (f.tell() if whence == 1 else os.path.getsize(rf_path[0]))
                 if base + off < 0:
                     return None  # a negative position is outside the domain of seek()
                 if whence == 2:
@@ -909,7 +999,7 @@ def run_client_once(ctx, case, observe):
                 observe("B:%s-with-readahead-outstanding" % k)
             if k == "rprefetch":
                 fsize = op[3] if len(op) > 3 else None  # file_size argument: None = let prefetch() ask the server
-                real = os.path.getsize(os.path.join(root, "r0"))
+                real = os.path.getsize(rf_path[0])
                 pos = f.tell()
                 observe("B:prefetch-at:" + ("start" if pos == 0 else ("inside" if pos < real else ("eof" if pos == real else "past-eof"))))
                 observe(
@@ -931,7 +1021,7 @@ def run_client_once(ctx, case, observe):
 
                 return go
             if k == "rreadv":
-                real = os.path.getsize(os.path.join(root, "r0"))
+                real = os.path.getsize(rf_path[0])
                 if f.tell() >= real:
                     observe("B:readv-with-position-at-or-past-eof")
 
@@ -979,7 +1069,7 @@ def run_client_once(ctx, case, observe):
         raise AssertionError(op)
 
     tail = [["rclose"], ["wclose", 0], ["wclose", 1]]
-    cur = {"idx": None, "op": None, "t0": time.monotonic(), "risky": False}
+    cur = {"idx": None, "op": None, "t0": time.monotonic(), "risky": False, "req0": 0}
 
     def program():
         # the whole program runs in ONE thread (the application thread); the main thread only watches
@@ -989,7 +1079,7 @@ def run_client_once(ctx, case, observe):
             if go is None:
                 info["skipped"] += 1
                 continue
-            cur.update(idx=idx, op=op, t0=time.monotonic(), risky=slot_risky)
+            cur.update(idx=idx, op=op, t0=time.monotonic(), risky=slot_risky, req0=stats["requests"])
             try:
                 go()
             except Exception as e:  # raising is an acceptable way for a call to end (C30 only forbids blocking)
@@ -1004,6 +1094,7 @@ def run_client_once(ctx, case, observe):
         g.thread.start()
         moved = None
         quiet = {"snap": None, "t0": None}
+        hquiet = {"snap": None, "t0": None}
         while not g.done.wait(0.02):
             snap = (cchan.sent, cchan.received)
             if snap != moved:
@@ -1011,6 +1102,7 @@ def run_client_once(ctx, case, observe):
             why = poll(g.thread)
             if why and stats["requests"] != stats["responses"]:
                 why = None  # the server owes an answer: not the client's fault (falls back to the long bound)
+            how = "proof" if why else "clock"
             if why is None:
                 # settled link: the server has consumed every request byte, answered every request and waits for the
                 # next one; no helper thread is alive; the application thread neither sends nor reads (responses may
@@ -1033,10 +1125,34 @@ def run_client_once(ctx, case, observe):
                         )
                 else:
                     quiet["snap"], quiet["t0"] = (full if settled else None), time.monotonic()
+            if why is None:
+                # a helper thread is alive (it polls its concurrency cap every 10 ms) but nothing moves: the application thread is
+                # parked in recv, the server has answered everything and is idle, not a byte in either direction for QUIET_BOUND_S
+                full = (cchan.sent, cchan.received, schan.sent, schan.received)
+                parked = (
+                    cchan.sent == schan.received
+                    and schan.sent == cchan.received
+                    and stats["requests"] == stats["responses"]
+                    and sth.is_alive()
+                    and W._in_recv(sth)
+                    and W._in_recv(g.thread)
+                )
+                if parked and full == hquiet["snap"]:
+                    if time.monotonic() - hquiet["t0"] > QUIET_BOUND_S:
+                        why = (
+                            "no return for %.0f s: application thread parked in recv, all %d request bytes consumed and answered, all %d response bytes "
+                            "delivered, server idle in recv; a helper thread is alive but has sent nothing" % (QUIET_BOUND_S, full[0], full[2])
+                        )
+                else:
+                    hquiet["snap"], hquiet["t0"] = (full if parked else None), time.monotonic()
+            if why is None and cur["idx"] is not None and stats["requests"] - cur["req0"] > CALL_REQUEST_LIMIT:
+                how = "count"
+                why = "the call does not return and keeps sending requests: the server has processed %d requests for this one call" % (stats["requests"] - cur["req0"])
             if why is None and time.monotonic() - cur["t0"] > CLIENT_BOUND_S:
                 why = "no return and no traffic on the link for %.0f s" % CLIENT_BOUND_S
             if why:
                 info["blocked_at"] = cur["idx"]
+                info["how"] = how
                 info["op"] = cur["op"]
                 info["on_risky_file"] = cur["risky"]
                 info["where"] = W.where(g.thread)
@@ -1069,7 +1185,7 @@ def run_client_case(ctx, case):
     sigs = []
     seen = set()
     blocked, info = run_client_once(ctx, case, seen.add)
-    nontrivial = info["risky"] > 0 or info["ra_risky"] > 0 or info["ra_end_reads"] > 0
+    nontrivial = info["risky"] > 0 or info["ra_risky"] > 0 or info["ra_end_reads"] > 0 or bool(info["ra_session"])
     classes = ["B:program"] + sorted(seen) + sorted(set("B:op:" + op[0] for op in case["ops"]))
     if case.get("focus"):
         classes.append("B:focus:" + case["focus"])
@@ -1079,26 +1195,35 @@ def run_client_case(ctx, case):
         classes.append("B:file-op-while-readahead-outstanding")
         if info["ra_reads"] > 0:
             classes.append("B:file-ops-and-reads-interleaved-while-readahead-outstanding")
+    if info["ra_session"]:
+        classes.append("B:session-op-while-readahead-outstanding")
     if info["excluded"]:
         classes.append("B:steered-around-known-hang")
     ctx.case(case, nontrivial, classes)
     ctx.count("B:calls", info["executed"])
     if not blocked:
         return sigs
-    # retry rule: report only if it blocks three times out of three
-    for _ in range(2):
-        again, info2 = run_client_once(ctx, case, seen.add)
-        if not again:
-            ctx.inconc("client-block-not-reproduced")
-            return sigs
+    # retry rule for verdicts taken by the clock: report only if it blocks three times out of three.  A deadlock proof and the
+    # request count of one call do not depend on the clock (nor on the machine's load): one occurrence is a counterexample.
+    runs = 1
+    if info.get("how") == "clock":
+        for _ in range(2):
+            again, info2 = run_client_once(ctx, case, seen.add)
+            if not again:
+                ctx.inconc("client-block-not-reproduced")
+                return sigs
+            runs += 1
     if info.get("server_owes"):
         clause, bucket = "client-blocks-forever", "server-owes-a-response:" + info["op"][0]
     elif info["on_risky_file"] and info["op"][0] in ("write", "wclose"):
         clause, bucket = "client-blocks-forever", "pipelined-write-reply-consumed-by-other-request"
+    elif info["ra_session"]:
+        # session operations ran while read-ahead replies were outstanding (they, or a later call on the read file, never return)
+        clause, bucket = "client-blocks-forever", "read-ahead-replies-outstanding-during:" + "+".join(sorted(set(info["ra_session"])))
     else:
         clause, bucket = "client-blocks-forever", "other:%s@%s" % (info["op"][0], info.get("where", "?"))
     sigs.append("%s|%s" % (clause, bucket))
-    if not ctx.violation(clause, bucket, case, "call #%d %r never returned (3 runs out of 3): %s" % (info["blocked_at"], info["op"], info["why"])):
+    if not ctx.violation(clause, bucket, case, "call #%d %r never returned (%s): %s" % (info["blocked_at"], info["op"], "3 runs out of 3" if runs == 3 else "decided without the clock", info["why"])):
         _client_blocked[0] = True  # unlisted: the run fails; every further hit would cost three more bounds
     return sigs
 
@@ -1126,7 +1251,16 @@ PROBE_CLIENTHANG = {
     "forced": True,
     "ops": [["wopen", 0, True, 0], ["write", 0, 1, 10], ["stat", 0], ["setpipe", 0, False], ["write", 0, 1, 10]],
 }
+PROBE_ITERHANG = {
+    "kind": "client",
+    "forced": True,
+    "big_kb": 8192,
+    "dentries": 40,
+    # open /r1 (8 MiB = 256 read-ahead requests) + prefetch(); listdir_iter("/d"), abandoned after its first entry; read()
+    "ops": [["ropen", True, None, 0, False, 1], ["listiter", 1, 1], ["rread", -1]],
+}
 PROBES = [
+    ("iterhang", PROBE_ITERHANG, SIG_ITERHANG),
     ("checkfile", PROBE_CHECKFILE, SIG_CHECKFILE),
     ("attrcount", PROBE_ATTRCOUNT, SIG_ATTRCOUNT),
     ("clienthang", PROBE_CLIENTHANG, SIG_CLIENTHANG),
@@ -1144,13 +1278,13 @@ def execute(ctx, case):
     if case["kind"] == "server":
         sigs = run_server_case(ctx, case, forced)
     else:
-        saved = EXCLUDE["clienthang"]
+        saved = EXCLUDE["clienthang"], EXCLUDE["iterhang"]
         if forced:
-            EXCLUDE["clienthang"] = False
+            EXCLUDE["clienthang"] = EXCLUDE["iterhang"] = False
         try:
             sigs = run_client_case(ctx, case)
         finally:
-            EXCLUDE["clienthang"] = saved
+            EXCLUDE["clienthang"], EXCLUDE["iterhang"] = saved
     for name, probe, sig in PROBES:
         if _same(case, probe):
             _present[name] = sig in sigs
@@ -1463,13 +1597,18 @@ _o_rclose = st.tuples(st.just("rclose"))
 _fsize_arg = st.sampled_from([None, None, None, 100000, 0, 1, 1000, 50000, 99999, 100001, 150000])
 _o_rprefetch_at = st.tuples(st.just("rprefetch"), _maxconc, st.booleans(), _fsize_arg)
 r_op = st.one_of(_o_ropen, _o_rprefetch, _o_rprefetch_at, _o_rreadv, _o_rread, _o_rtruncate, _o_rchmod, _o_rutime, _o_rfstat, _o_rseek, _o_ryield, _o_rclose)
-_session_op = st.one_of(st.tuples(st.just("stat"), st.integers(0, 5)), st.tuples(st.just("listdir")))
+_take = st.sampled_from([None, None, 1, 3, 17])
+_o_listdir = st.tuples(st.just("listdir"), st.integers(0, 1))
+_o_listdirattr = st.tuples(st.just("listdirattr"), st.integers(0, 1))
+_o_listiter = st.tuples(st.just("listiter"), st.integers(0, 1), _take)
+_session_op = st.one_of(st.tuples(st.just("stat"), st.integers(0, 5)), st.tuples(st.just("listdir")), _o_listdir, _o_listdirattr, _o_listiter)
 # A read-ahead episode: something starts read-ahead on the file (open + prefetch, prefetch, a readv whose results are only
 # partly taken), then 1-4 operations on that file follow.  Any request that waits for its own reply consumes the
 # read-ahead replies queued before it, so it is the operation right after the start (or after a `ryield` with capped
 # concurrency, when the helper thread sends the next requests) that meets outstanding replies.
 _ra_start = st.one_of(_o_ropen_pf, _o_rprefetch, _o_rreadv)
-_ra_follow = st.one_of(_o_rtruncate, _o_rchmod, _o_rutime, _o_rfstat, _o_rseek, _o_rread, _o_ryield)
+# (one_of() flattens nested one_of()s: the session operations are wrapped so that together they weigh as ONE alternative here)
+_ra_follow = st.one_of(_o_rtruncate, _o_rchmod, _o_rutime, _o_rfstat, _o_rseek, _o_rread, _o_ryield, _session_op.map(lambda v: v))
 _ra_episode = st.tuples(_ra_start, st.lists(_ra_follow, min_size=1, max_size=4), st.sampled_from([[], [], [("rclose",)]])).map(lambda e: [e[0]] + e[1] + e[2])
 # Positioned read-ahead: bring the file object to a generated position (the read file has 100000 bytes), start read-ahead there with
 # a generated file_size argument, then read / seek.  Positions: start, inside, last byte, exactly EOF, past EOF, relative to EOF, "read
@@ -1496,7 +1635,42 @@ _ra_pos_episode = st.tuples(
 _ra_part = st.one_of(_ra_episode, _ra_pos_episode, _ra_pos_episode.map(lambda v: v), st.lists(st.one_of(r_op, _session_op), min_size=1, max_size=3))
 _ra_program = st.lists(_ra_part, min_size=1, max_size=4).map(lambda parts: [o for part in parts for o in part])
 _foci = st.sampled_from(["writes", "writes", "readahead", "readahead", "mixed"])
+# focus "busy": session operations while the helper thread of a big read-ahead is still sending requests
+_busy_cap = st.sampled_from([None, None, None, None, 64, 16])
+_busy_start = st.one_of(
+    st.tuples(st.just("ropen"), st.just(True), _busy_cap, st.integers(0, 1), st.just(False), st.just(1)).map(lambda o: [o]),
+    st.tuples(st.just("ropen"), st.just(True), _busy_cap, st.integers(0, 1), st.just(False), st.just(1)).map(lambda o: [o]).map(lambda v: v),
+    st.tuples(
+        st.tuples(st.just("ropen"), st.just(False), st.none(), st.integers(0, 1), st.just(False), st.just(1)),
+        st.tuples(st.just("rprefetch"), _busy_cap, st.just(False)),
+    ).map(list),
+    st.tuples(
+        st.tuples(st.just("ropen"), st.just(False), st.none(), st.integers(0, 1), st.just(False), st.just(1)),
+        st.tuples(st.just("rreadv"), st.lists(st.tuples(st.integers(0, 1 << 20), st.sampled_from([32768, 200000, 600000])), min_size=2, max_size=6), st.integers(0, 1), _busy_cap, st.just(False)),
+    ).map(list),
+)
+_busy_session = st.one_of(
+    _o_listdir,
+    _o_listdirattr,
+    _o_listiter,
+    _o_listiter.map(lambda v: v),
+    st.tuples(st.just("stat"), st.integers(0, 5)),
+    st.tuples(st.just("lstat"), st.integers(0, 5)),
+    st.tuples(st.just("readfile"), st.sampled_from([10, 40000, 100000])),
+    st.tuples(st.just("wopen"), st.just(1), st.just(True), st.just(0)),
+    st.tuples(st.just("write"), st.just(1), st.sampled_from([1, 5, 40, 120]), st.sampled_from([10, 1000])),
+)
+_busy_end = st.one_of(
+    st.just([("rread", -1)]),
+    st.just([("rread", -1), ("rclose",)]),
+    st.lists(st.tuples(st.just("rread"), st.sampled_from([1, 32768, 100000, 1 << 20])), min_size=1, max_size=3),
+    st.just([("rclose",)]),
+)
+_busy_program = st.tuples(_busy_start, st.lists(_busy_session, min_size=1, max_size=4), _busy_end).map(lambda e: e[0] + e[1] + e[2])
+_big_kb = st.sampled_from([1024, 2048, 2048, 4096])
+_dentries = st.sampled_from([0, 5, 20, 40])
 _ops_by_focus = {
+    "busy": _busy_program,
     "writes": st.lists(client_op, min_size=1, max_size=14),
     "readahead": _ra_program,
     "mixed": st.lists(st.one_of(client_op.map(lambda o: [o]), _ra_episode, _ra_pos_episode), min_size=1, max_size=8).map(lambda parts: [o for part in parts for o in part]),
@@ -1517,7 +1691,12 @@ def client_case_st(draw, foci=None):
     if focus != "writes" and draw(_zero3) == 0:
         head.append(["ropen", False, None, draw(_zero3) % 2, False])
     ops = head + [list(o) for o in draw(_ops_by_focus[focus])]
-    return {"kind": "client", "ops": ops, "focus": focus}
+    case = {"kind": "client", "ops": ops, "focus": focus}
+    if focus == "busy":
+        case["big_kb"] = draw(_big_kb)
+    if focus != "writes":
+        case["dentries"] = draw(_dentries)
+    return case
 
 
 # ----------------------------------------------------------------------------- entry points
@@ -1549,8 +1728,9 @@ def run(ctx):
     ctx.note("steering", {k: _excluded(k) for k in EXCLUDE})
     _explore(ctx, server_case_st(max_body=ctx.scale(25, 57)), lambda c: execute(ctx, c), ctx.scale(450, 5000))
     body = lambda c: None if _client_blocked[0] else execute(ctx, c)  # noqa: E731
-    _explore(ctx, client_case_st(st.just("writes")), body, ctx.scale(120, 1000), shrink=False, seed_offset=1)
+    _explore(ctx, client_case_st(st.just("writes")), body, ctx.scale(110, 1000), shrink=False, seed_offset=1)
     _explore(ctx, client_case_st(st.sampled_from(["readahead", "readahead", "mixed"])), body, ctx.scale(110, 900), shrink=False, seed_offset=2)
+    _explore(ctx, client_case_st(st.just("busy")), body, ctx.scale(40, 500), shrink=False, seed_offset=3)
 
 
 def replay(ctx, case):
